@@ -28,6 +28,21 @@ def run(ctx):
     cfg = sigcommon.model_cfg(300 if quick else 1200, 2, [0], 1, ["CanonIsMin"])
     r = ctx.add_tlc(core.tlc_or_die(ctx.workdir, "SigModel", cfg, tag="canon"))
 
+    # optional extra (never on the critical path): the unbounded arithmetic lemma behind low-S, proved by the TLA+ proof system
+    try:
+        import os
+        import shutil
+        import subprocess
+        pd = os.path.join(ctx.workdir, "proofs")
+        os.makedirs(pd, exist_ok=True)
+        shutil.copy(os.path.join(core.SPEC_DIR, "proofs", "LowS.tla"), pd)
+        pr = subprocess.run(["tlapm", "LowS.tla"], cwd=pd, stdout=subprocess.PIPE, stderr=subprocess.STDOUT, timeout=240)
+        import re as _re
+        m = _re.search(r"All (\d+) obligations? proved", pr.stdout.decode("utf-8", "replace"))
+        ctx.extra["tlaps_lemma_CanonLow"] = ("proved, %s obligation(s)" % m.group(1)) if m else "not proved in this run (ignored)"
+    except Exception as e:  # noqa
+        ctx.extra["tlaps_lemma_CanonLow"] = "tlapm unavailable or timed out (ignored): %s" % type(e).__name__
+
     encs = {"string": util.sigencode_string_canonize, "strings": util.sigencode_strings_canonize,
             "der": util.sigencode_der_canonize}
     events = []
